@@ -51,10 +51,28 @@ def isRec : Event → Bool
   | .recovered .. => true
   | _ => false
 
-def render (evs : List Event) (s : NSt) (countRecs : Bool := true) : String :=
-  let calls := (evs.filter (fun e => !isRec e)).mergeSort evLe
-  let toks := calls.map evTok
-  let recs := if countRecs then (evs.filter isRec).length else 0
+def isHandle : Event → Bool
+  | .handle .. => true
+  | _ => false
+
+def isBatchEv : Event → Bool
+  | .batchMode .. => true
+  | _ => false
+
+def startFlag : Event → Nat
+  | .batchMode _ _ st => if st then 1 else 0
+  | _ => 0
+
+/-- canonical observation: the HandleNotification calls by (priority descending, target, token), then the BatchMode
+    calls by (target, flag) -/
+def render (evs : List Event) (s : NSt) : String :=
+  let hs := (evs.filter isHandle).mergeSort (fun a b =>
+    let ka := evKey a; let kb := evKey b
+    ka.1 > kb.1 || (ka.1 == kb.1 && (ka.2 < kb.2 || (ka.2 == kb.2 && evTok a ≤ evTok b))))
+  let bs := (evs.filter isBatchEv).mergeSort (fun a b =>
+    (evKey a).2 < (evKey b).2 || ((evKey a).2 == (evKey b).2 && startFlag a ≤ startFlag b))
+  let toks := (hs ++ bs).map evTok
+  let recs := (evs.filter isRec).length
   " ".intercalate ("order-ok" :: toks) ++ s!" | rec={recs} | L{s.level} E{if s.enabled then 1 else 0}"
 
 def strLe (a b : String) : Bool := a ≤ b
@@ -70,41 +88,43 @@ def dump (s : NSt) : String :=
   "P[" ++ " ".intercalate (prodL.mergeSort strLe) ++ "] N[" ++ " ".intercalate nameL ++ "] B[" ++ nats s.batch ++
     "] C[" ++ nats s.current ++ s!"] L{s.level} E{if s.enabled then 1 else 0}"
 
-/-- operations the re-entrant target may perform (they cause no calls themselves) -/
-def armable : Op → Bool
-  | .register .. | .unregister .. | .merge .. | .setEnabled .. | .reset .. => true
-  | _ => false
+/-- the harness' second re-entrant target: batch-capable, calls back from HandleNotification and from BatchMode -/
+def reentrantBatch : Nat := 10
 
-def handlesReentrant : Event → Bool
-  | .handle _ t _ _ => t == reentrant
-  | _ => false
+def callsReentrant : Event → Bool
+  | .handle _ t _ _ => t == reentrant || t == reentrantBatch
+  | .batchMode _ t _ => t == reentrantBatch
+  | .recovered .. => false
 
 /-- driver state: the world and the armed operation of the re-entrant target -/
 structure DSt where
   w : World := World.init
   armed : Option Op := none
 
-/-- Transcription of re-entrancy: `NotifyWithData` computes the delivery list and releases its lock before the first
-    call, so an operation performed by a target from inside `HandleNotification` does not affect the current delivery and
-    takes effect as if it had been issued right after the notification: the driver composes `Nt.step` accordingly. -/
+/-- Transcription of re-entrancy.  Every exported method finishes its work on the registry and releases the lock before
+    the first callback, and iterates over a goroutine-local snapshot; so an operation performed by a target from inside
+    `HandleNotification` / `BatchMode` (any operation: Register … Notify, StartBatch, EndBatch) sees the registry as the
+    outer call left it, does not change what the outer call still delivers, and its own callbacks are simply made in
+    between: the observation of the line is the union of both, the state is `Nt.step` composed twice.  The armed
+    operation fires once, at the first callback of a re-entrant target. -/
 def stepLine (d : DSt) (line : String) : DSt × String :=
   match words line with
   | ["reset"] => ({}, "reset")
   | ["dump", n] => match nat? n with | some n => (d, dump (d.w n)) | none => (d, "bad-op")
   | "arm" :: n :: rest =>
     match nat? n, parseOp rest with
-    | some n, some op => if armable op then ({ d with armed := some op }, render [] (d.w n) (n != 2)) else (d, "bad-op")
+    | some n, some op => ({ d with armed := some op }, render [] (d.w n))
     | _, _ => (d, "bad-op")
   | ws =>
     match parseOp ws with
     | none => (d, "bad-op")
     | some op =>
       let r := Nt.step pan d.w op
-      let fired := r.2.any handlesReentrant
-      let (w', armed') := match fired, d.armed with
-        | true, some op' => ((Nt.step pan r.1 op').1, none)
-        | _, a => (r.1, a)
-      -- notifier 2 has a nil recovery handler: its reports are not observable
-      ({ w := w', armed := armed' }, render r.2 (w' (opNotifier op)) (opNotifier op != 2))
+      let fired := r.2.any callsReentrant
+      match fired, d.armed with
+      | true, some op' =>
+        let r' := Nt.step pan r.1 op'
+        ({ w := r'.1, armed := none }, render (r.2 ++ r'.2) (r'.1 (opNotifier op)))
+      | _, a => ({ w := r.1, armed := a }, render r.2 (r.1 (opNotifier op)))
 
 def main : IO Unit := Proto.run stepLine {}
